@@ -31,7 +31,7 @@ def dispatch (op : String) (args impl : List String) : String :=
     else if op.startsWith "sch." then OH.Driver.C14.handle op args impl
     else if op.startsWith "cal." then OH.Driver.C15.handle op args impl
     else if op.startsWith "chr." then OH.Driver.Cal.handle op args impl
-    else if op.startsWith "tz." then OH.Driver.Tz.handle op args impl
+    else if op.startsWith "tz." || op.startsWith "tzc02." then OH.Driver.Tz.handle op args impl
     else if op.startsWith "nz." then OH.Driver.Nz.handle op args impl
     else if op.startsWith "pur." then OH.Driver.C18.handle op args impl
     else if op.startsWith "py." then OH.Driver.Py.handle op args impl
